@@ -24,14 +24,17 @@ def firstIsAsciiLower (s : String) : Bool :=
 
 def isKnownTag (env : Env) (name : String) : Bool := firstIsAsciiLower name && env.isKnown name
 
+/-- `is_fragment_name`: `Fragment`, `_Fragment`, `Fragment2`, … -/
+def isFragmentName (name : String) : Bool :=
+  let n := match name.toList with | '_' :: r => r | r => r
+  match stripPrefix FRAGMENT.toList n with
+  | some rest => rest.all fun c => '0' ≤ c && c ≤ '9'
+  | none => false
+
 /-- `is_component(element_name)` -/
-def isComponent (env : Env) (st : St) (nameN : Node) : Bool :=
+def isComponent (env : Env) (nameN : Node) : Bool :=
   let name := tagLocalName nameN
-  let isFragmentAlias :=
-    match st.imports.find? (fun p => p.1 == FRAGMENT) with
-    | some p => identName p.2 == name
-    | none => false
-  let shouldSlots := !isFragmentAlias && name != KEEP_ALIVE
+  let shouldSlots := !isFragmentName name && name != KEEP_ALIVE
   match nameN with
   | .mk .jsxMember _ _ => shouldSlots
   | _ => !env.isPat name && shouldSlots && !isKnownTag env name
@@ -93,6 +96,13 @@ def wrapChildren (o : Opts) (elems : List Node) (slotFlag : Nat) (slots : Option
 
 def stackFill (st : St) : St := { st with slotFlagStack := st.slotFlagStack.map (fun _ => 2) }
 
+/-- the value of the first attribute with identifier name `type` that has a value -/
+def typeAttrOf (attrs : List Node) : Option Node :=
+  attrs.findSome? fun a =>
+    match a with
+    | .mk .jsxAttr _ [.mk .ident (n :: _) _, v] => if n == "type" && !isNone v then some v else none
+    | _ => none
+
 /-- `resolve_directive(name, jsx_element)`; `tagN`/`attrs` are the element's tag and attribute list -/
 def resolveDirective (name : String) (tagN : Node) (attrs : List Node) (st : St) : Node × St :=
   if name == "show" then st.importFromVue "vShow"
@@ -101,12 +111,7 @@ def resolveDirective (name : String) (tagN : Node) (attrs : List Node) (st : St)
     if tagIdent == some "select" then st.importFromVue "vModelSelect"
     else if tagIdent == some "textarea" then st.importFromVue "vModelText"
     else
-      -- the first attribute with identifier name `type` that has a value
-      let typ : Option Node := attrs.findSome? fun a =>
-        match a with
-        | .mk .jsxAttr _ [.mk .ident (n :: _) _, v] => if n == "type" && !isNone v then some v else none
-        | _ => none
-      match typ with
+      match typeAttrOf attrs with
       | some (.mk .str (s :: _) _) =>
         if s == "checkbox" then st.importFromVue "vModelCheckbox"
         else if s == "radio" then st.importFromVue "vModelRadio"
@@ -179,7 +184,7 @@ mutual
 def trElement (o : Opts) (env : Env) : Node → St → Node × St
   | .mk .jsxElement _ [.mk .jsxOpening _ [nameN, .mk .list _ attrs, _], .mk .list _ children, _], st =>
     let st := pushFlag o st
-    let isComp := isComponent env st nameN
+    let isComp := isComponent env nameN
     let (ar, st) := transformAttrs o attrs isComp st
     let (tag, st) := transformTag env nameN st
     let (elems, st) := trChildList o env children st
